@@ -206,3 +206,57 @@ func VerifH_C14_Cycle() {
 		}
 	}
 }
+
+// ---- on-delete pruning racing a cycle --------------------------------------------
+
+type verifQuietPruner struct{ calls int }
+
+func (p *verifQuietPruner) Prune(context.Context, *header.ExtendedHeader) error {
+	p.calls++
+	return nil
+}
+
+// The syncer deletes a header (which prunes that height's data through the
+// service) while a pruning cycle runs: whatever the interleaving, the
+// last-pruned checkpoint ends at least where the cycle put it - it never moves
+// backwards.
+//
+//verif:opts nopanic nodeadlock noreplay preempt=2 threads=6 cover=raced,cycle-advanced
+func VerifH_C14_OnDeleteRacingACycleKeepsTheCheckpointMonotone() {
+	maxHeadersPerLoop = 2
+	// a fixed chain of 5 old headers (one block time apart) and a recent head
+	c := &verifChain{head: 6, tail: 1}
+	for i := 0; i < 6; i++ {
+		eh := &header.ExtendedHeader{DAH: &da.DataAvailabilityHeader{}}
+		eh.RawHeader.Height = int64(i + 1)
+		eh.RawHeader.Time = time.Unix(0, int64(1+i)*int64(verifBlockTime))
+		c.hdrs = append(c.hdrs, eh)
+	}
+	c.hdrs[5].RawHeader.Time = time.Unix(0, 1<<50)
+	s := &Service{pruner: &verifQuietPruner{}, hstore: c, window: time.Duration(1 << 40), blockTime: verifBlockTime, checkpoint: newCheckpoint(1)}
+	s.ctx = context.Background()
+	verifStored, verifStoreFails = nil, false
+
+	h := uint64(2 + nd.Choice(2, "deletedHeight")) // the syncer deletes height 2 or 3
+	done := make(chan struct{}, 2)
+	var afterCycle uint64
+	go func() {
+		s.prune(context.Background())
+		s.checkpointMu.Lock()
+		afterCycle = s.checkpoint.LastPrunedHeight
+		s.checkpointMu.Unlock()
+		done <- struct{}{}
+	}()
+	go func() {
+		nd.Assert(s.pruneOnHeaderDelete(context.Background(), h) == nil, "on-delete-pruning-succeeds")
+		done <- struct{}{}
+	}()
+	<-done
+	<-done
+	nd.Cover("raced")
+	if afterCycle > h {
+		nd.Cover("cycle-advanced")
+	}
+	nd.Assert(s.checkpoint.LastPrunedHeight >= afterCycle, "checkpoint-never-moves-backwards")
+	nd.Assert(s.checkpoint.LastPrunedHeight >= 1 && s.checkpoint.LastPrunedHeight <= c.head, "checkpoint-within-chain")
+}
